@@ -82,8 +82,13 @@ CloneInto(o) == \E o2 \in Objs \ {o} :
                   /\ last' = [kind |-> "api", o |-> o2, pre |-> Size(o2)]
                   /\ n' = n + 1
 Choices == {<<0, 0>>, <<1, 0>>, <<0, 1>>}
-AppendOther(o) == \E o2 \in Objs : \E start \in 0..Len(obj[o2].st), ch \in Choices :
-                    Set(o, AppendFrom(obj[o], obj[o2], start, ch), "api")
+\* the random choices only matter when a tail statement reads a variable of other's head
+ChoicesFor(t2, start) ==
+  IF \E j \in (start + 1)..Len(t2.st) : t2.st[j].uses \cap BoundBefore(t2.st, start + 1) # {}
+  THEN Choices ELSE {<<0, 0>>}
+AppendOther(o) == \E o2 \in Objs : \E start \in 0..Len(obj[o2].st) :
+                    \E ch \in ChoicesFor(obj[o2], start) :
+                      Set(o, AppendFrom(obj[o], obj[o2], start, ch), "api")
 
 (* ------------------------------------------------------- composite steps *)
 AddDeps(t, pos, nd, dty) ==
@@ -100,28 +105,35 @@ InsertCall(t, pos, nd, S, ty, inv) ==
   IN IF inv THEN Insert(AfterNextVar(t2), pos + nd + 1, Stmt(t2.ctr, {call.bv}, NoType)) ELSE t2
 Needed(nd, inv) == nd + 1 + (IF inv THEN 1 ELSE 0)
 
+\* arguments of one insertion: position, number of dependency statements, an earlier variable the
+\* call reuses (none, or the one bound last before the position), recorded type, invoke-the-result
+LastBefore(st, pos) ==
+  LET B == {j \in 1..pos : Binds(st[j])} IN
+  IF B = {} THEN {} ELSE {st[CHOOSE j \in B : \A k \in B : k <= j].bv}
 InsertArgs(o) ==
   {<<pos, nd, S, ty, inv>> : pos \in 0..Size(o), nd \in 0..MaxDeps,
-                              S \in {U \in SUBSET BoundVars(obj[o].st) : Cardinality(U) <= 1},
+                              S \in {{}} \cup {LastBefore(obj[o].st, p) : p \in 0..Size(o)},
                               ty \in TyOpt, inv \in BOOLEAN}
-\* the factory method itself has no length guard (append_generic_accessible, local search)
-FactoryInsert(o) ==
-  \E a \in InsertArgs(o) :
-     /\ a[3] \subseteq BoundBefore(obj[o].st, a[1] + 1)
-     /\ (a[5] => a[4] = NoType)      \* only possibly-callable results are invoked
-     /\ Set(o, InsertCall(obj[o], a[1], a[2], a[3], a[4], a[5]), "change")
-\* _mutation_insert / RandomLengthTestCaseFactory.get_test_case
+InsertOK(o, a) == /\ a[3] \subseteq BoundBefore(obj[o].st, a[1] + 1)
+                  /\ (a[5] => a[4] = NoType)      \* only possibly-callable results are invoked
+Guarded(o, a) == IF InsertGuard = "as_coded" THEN Size(o) < MaxLen
+                 ELSE Size(o) + Needed(a[2], a[5]) <= MaxLen
+\* _mutation_insert / RandomLengthTestCaseFactory.get_test_case call insert_random_statement
+\* under a length guard
 MutationInsert(o) ==
   \E a \in InsertArgs(o) :
-     /\ a[3] \subseteq BoundBefore(obj[o].st, a[1] + 1)
-     /\ (a[5] => a[4] = NoType)
-     /\ IF InsertGuard = "as_coded" THEN Size(o) < MaxLen
-        ELSE Size(o) + Needed(a[2], a[5]) <= MaxLen
+     /\ InsertOK(o, a) /\ Guarded(o, a)
      /\ Set(o, InsertCall(obj[o], a[1], a[2], a[3], a[4], a[5]), "insert")
+\* the factory method itself has no length guard (append_generic_accessible of the random
+\* algorithm, local search RANDOM_CALL); only the calls MutationInsert does not already cover
+FactoryInsert(o) ==
+  \E a \in InsertArgs(o) :
+     /\ InsertOK(o, a) /\ ~Guarded(o, a)
+     /\ Set(o, InsertCall(obj[o], a[1], a[2], a[3], a[4], a[5]), "change")
 
 ChangeStmt(o) ==
   \E i \in 0..(Size(o) - 1), nd \in 0..MaxDeps, ty \in TyOpt :
-   \E S \in {U \in SUBSET BoundBefore(obj[o].st, i + 1) : Cardinality(U) <= 1} :
+   \E S \in {{}, LastBefore(obj[o].st, i)} :
      LET t == obj[o]
          old == t.st[i + 1]
          t1 == AddDeps(t, i, nd, CHOOSE x \in Types : TRUE)
@@ -132,7 +144,8 @@ ChangeStmt(o) ==
 DeleteGracefully(o) == ApiRemoveFwd(o)
 
 Crossover(o) ==
-  \E o2 \in Objs \ {o} : \E p1 \in 0..Size(o), p2 \in 0..Len(obj[o2].st), ch \in Choices :
+  \E o2 \in Objs \ {o} : \E p1 \in 0..Size(o), p2 \in 0..Len(obj[o2].st) :
+   \E ch \in ChoicesFor(obj[o2], p2) :
      LET head == RemoveBatch(Clone(obj[o]), p1..(Size(o) - 1))
          off == AppendFrom(head, Clone(obj[o2]), p2, ch)
      IN Set(o, IF Len(off.st) < MaxLen THEN off ELSE obj[o], "crossover")
@@ -149,13 +162,16 @@ RawStep(o) ==
   \/ \E s \in AnyStmts(obj[o]), i \in 0..(Size(o) - 1) : Set(o, Replace(obj[o], i, s), "raw")
   \/ \E S \in SUBSET (0..(Size(o) - 1)) : Set(o, RemoveBatch(obj[o], S), "raw")
 
+\* Object 1 is the subject of every action; the other objects (the "other parent" of crossover /
+\* append_test_case_from, the target of clone) are only built by additions and insertions.
 Next ==
   /\ n < MaxSteps
-  /\ \E o \in Objs :
-       \/ ApiAdd(o) \/ ApiInsert(o) \/ ApiRemove(o) \/ ApiRemoveFwd(o) \/ Chopping(o) \/ Unused(o)
-       \/ CloneInto(o) \/ AppendOther(o)
-       \/ FactoryInsert(o) \/ MutationInsert(o) \/ ChangeStmt(o) \/ Crossover(o) \/ NewTestCase(o)
-       \/ (Raw /\ RawStep(o))
+  /\ \/ \E o \in Objs : ApiAdd(o) \/ MutationInsert(o)
+     \/ LET o == 1 IN
+          \/ ApiInsert(o) \/ ApiRemove(o) \/ ApiRemoveFwd(o) \/ Chopping(o) \/ Unused(o)
+          \/ CloneInto(o) \/ AppendOther(o)
+          \/ FactoryInsert(o) \/ ChangeStmt(o) \/ Crossover(o) \/ NewTestCase(o)
+          \/ (Raw /\ RawStep(o))
 
 Spec == Init /\ [][Next]_vars
 
